@@ -4,7 +4,7 @@ func buildProperties() []Property {
 	return []Property{
 		{
 			ID: "C17", Title: "DCG translation preserves the language and the threading of the remainder",
-			Decides:    "a necessary condition of 'leaves exactly the unconsumed remainder': in every entry of the construct table and in the non-terminal/terminal helpers the remainder is reachable from the input list over the hidden-argument pairs handed to sub-translations and constructed goals, every fresh difference-list variable is fed by that threading, and the rule translator connects head and body through its fresh variables. This is the thinnest claim of the set. The left operand of a generated conjunction never ends at the caller's remainder (steadfastness).",
+			Decides:    "a necessary condition of 'leaves exactly the unconsumed remainder': in every entry of the construct table and in the non-terminal/terminal helpers the remainder is reachable from the input list over the hidden-argument pairs handed to sub-translations and constructed goals, every fresh difference-list variable is fed by that threading, and the rule translator connects head and body through its fresh variables. This is the thinnest claim of the set. The left operand of a generated conjunction never ends at the caller's remainder (steadfastness). A conjunction nested on the left (the shape the translation gives every non-final '!') is part of the clause body's sequence, so the cut is the clause's cut.",
 			NotDecided: "language preservation, argument bindings, cut and negation semantics inside bodies.",
 			Rules: []RuleDef{
 				{"R-SEQ-FLATTEN", 1, ruleSeqFlatten},
@@ -39,7 +39,7 @@ func buildProperties() []Property {
 		},
 		{
 			ID: "C19", Title: "A stream is one forward cursor: peeks do not consume, nothing skipped/repeated",
-			Decides:    "the cursor bookkeeping (buffer, position, end-of-stream, last rune size) is touched only by the stream's own methods; each method that moves the underlying reader/writer moves `position` in the same direction by the amount transferred, on the success edge; peek_char/peek_byte install the matching un-read on every path after their read and get_* never un-read; read_term/3 un-reads exactly once on the stream its parser was built on. Byte-unit operations on the underlying reader run only under streamType == binary and rune-unit operations only under text.",
+			Decides:    "the cursor bookkeeping (buffer, position, end-of-stream, last rune size) is touched only by the stream's own methods; each method that moves the underlying reader/writer moves `position` in the same direction by the amount transferred, on the success edge; peek_char/peek_byte install the matching un-read on every path after their read and get_* never un-read; read_term/3 un-reads exactly once on the stream its parser was built on. Byte-unit operations on the underlying reader run only under streamType == binary and rune-unit operations only under text. A peek gives back what it read before the continuation can run and only when the read succeeded; read_term/3 gives back its look-ahead rune before the continuation runs and does not give back a delivered end of file; the lexer's window never reads its source again after the source has failed; un-reading a look-ahead that found the end takes the stream back to at-the-end.",
 			NotDecided: "that mixed operation sequences deliver consecutive data, the end-of-stream state machine, that one un-read is enough after read_term (would need the ring's contents, not its depth).",
 			Rules: []RuleDef{
 				{"R-STREAM-OWNER", 8, ruleStreamOwner},
@@ -173,7 +173,7 @@ func buildProperties() []Property {
 		},
 		{
 			ID: "C03", Title: "Cut removes exactly the clause-level choice points; call/N makes it local",
-			Decides:    "cut-barrier discipline: the barrier field is written only at construction and cleared only by the trampoline; a cut is tagged with the activation's own barrier; each clause alternative gets the promise holding this call's alternatives as barrier; no *Promise can travel into a callee (procedure interface, Cont, VM fields), so every goal entered through call/N, \\+, findall, catch gets a fresh barrier. Control constructs inspect the shape of a goal only after resolving it and their closures write no captured Go variable (no state that backtracking cannot restore).",
+			Decides:    "cut-barrier discipline: the barrier field is written only at construction and cleared only by the trampoline; a cut is tagged with the activation's own barrier; each clause alternative gets the promise holding this call's alternatives as barrier; no *Promise can travel into a callee (procedure interface, Cont, VM fields), so every goal entered through call/N, \\+, findall, catch gets a fresh barrier. Control constructs inspect the shape of a goal only after resolving it and their closures write no captured Go variable (no state that backtracking cannot restore). The sequence iterator looks at the left operand of a conjunction, so a conjunction nested on the left is not compiled as a call of ','/2 (in which a cut would be local).",
 			NotDecided: "that popUntil prunes exactly the right frames for every dynamic stack; the derived semantics of ->, once, \\+ in bootstrap.pl.",
 			Rules: []RuleDef{
 				{"R-SEQ-FLATTEN", 1, ruleSeqFlatten},
@@ -189,7 +189,7 @@ func buildProperties() []Property {
 		},
 		{
 			ID: "C04", Title: "throw/1 unwinds to the innermost still-executing catch/3, undoing bindings",
-			Decides:    "the ball is instantiated and copied at throw time (throw/1 raises only Exceptions whose term is renamedCopy(ball, env) of its own arguments); the catcher is unified and Recovery called under the environment catch/3 was called with, so all later bindings are undone (with R-ENV-IMMUT); variable sharing inside the ball is kept. The closures of catch/3 and throw/1 write no captured Go variable.",
+			Decides:    "the ball is instantiated and copied at throw time (throw/1 raises only Exceptions whose term is renamedCopy(ball, env) of its own arguments); the catcher is unified and Recovery called under the environment catch/3 was called with, so all later bindings are undone (with R-ENV-IMMUT); variable sharing inside the ball is kept. The closures of catch/3 and throw/1 write no captured Go variable. Inside the protected thunk of catch/3 the continuation is only invoked under a nested marker frame whose handler declines every error and tells the handler of catch/3 to let that error pass: a catch/3 whose goal has exited does not intercept later errors.",
 			NotDecided: "which catch frame is selected - in particular that a catch/3 whose Goal has exited no longer intercepts (observation O1: it does on this tree; a property of the runtime promise stack).",
 			Rules: []RuleDef{
 				{"R-CATCH-SCOPE", 3, ruleCatchScope},
@@ -241,7 +241,7 @@ func buildProperties() []Property {
 		},
 		{
 			ID: "C07", Title: "Arithmetic is exact or raises an evaluation error; comparisons are numeric",
-			Decides:    "integer evaluables never route through float64; full-range + - * neg are paired with an int_overflow branch; / % divisors and shift counts are guarded; float->integer conversions are range-guarded with the actual constants; the 2x2 type dispatch of the six comparison predicates and of the mixed-mode arithmetic computes the operator the ISO name prescribes. Arithmetic inspects operand types only after resolution.",
+			Decides:    "integer evaluables never route through float64; full-range + - * neg are paired with an int_overflow branch; / % divisors and shift counts are guarded; float->integer conversions are range-guarded with the actual constants; the 2x2 type dispatch of the six comparison predicates and of the mixed-mode arithmetic computes the operator the ISO name prescribes. Arithmetic inspects operand types only after resolution. float_overflow is raised only under a test of the computed result for infinity or under a pre-check that knows the sign of every operand it multiplies or divides the bound by.",
 			NotDecided: "value correctness of guards that are present but wrong (the sign error in mulF/divF, O2), IEEE results of the float functions, deeper expression trees.",
 			Rules: []RuleDef{
 				{"R-RESOLVE-ALL", 6, ruleResolveAll("C07")},
@@ -257,7 +257,7 @@ func buildProperties() []Property {
 		},
 		{
 			ID: "C05", Title: "No input crashes or wedges the host; every failure is a Prolog error term",
-			Decides:    "panic classes visible in code shape (zero divisor, negative shift, uncomparable interface comparison, missing table row) Every computed index into a fixed-size array is proven in range (enumeration, range loop, branch facts, or ring cursor by interval interpretation).",
+			Decides:    "panic classes visible in code shape (zero divisor, negative shift, uncomparable interface comparison, missing table row) Every computed index into a fixed-size array is proven in range (enumeration, range loop, branch facts, or ring cursor by interval interpretation). The parser's next() moves its token window by one slot on every return path, failures included, so the unconditional backup() of its callers is symmetric (no endless re-parsing at the end of the input).",
 			NotDecided: "termination on arbitrary text, slice bounds in general, memory exhaustion",
 			Rules: []RuleDef{
 				{"R-NEXT-ADVANCES", 2, ruleNextAdvances},
